@@ -54,4 +54,10 @@ PROPS["C09"] = {
     "assumptions": ["generated constraints are judged exactly: acyclic and every pair overlapping in the other axis joined by a directed path of summed gap >= half-extent sum", "fixed rectangles must stay within 1% of the mean size unless some pass is infeasible with the fixed rectangles pinned (class fixed_wedge, known finding)", "sizes in the hundreds are outside the bound"],
     "parts": [{"name": "overlaps", "src": "c09_overlaps.cpp", "quick": T(100, 20, [], 1000), "thorough": T(1200, 20, [], 1000)}],
 }
+PROPS["C18"] = {
+    "rule": "SepDir(8) x GapType(2) x SepType(EQ,INEQ) x gap in {+0,-0,1,-1,2.5} x 7 transforms x 196 placements of two nodes (centres in [-3,3]^2, sizes 2x2/4x2/2x4): sat(c,P) <=> sat(T(c),T(P)) with satisfaction defined by the library's own generateSeparationConstraint; all 49 products of two symmetries and R^4 compared bit-for-bit with the D4 table; every history of <=2 (3) SepMatrix::addSep calls over both id orders compared with the same history issued in canonical order with opposite directions; TGLF write/read/write round trip for graphs n<=3 with routes and constraints. Non-trivial = constraint satisfied by some but not all placements / history uses the flipped order / graph has a route or constraint.",
+    "bounds": {"quick": "addSep histories depth 2", "thorough": "depth 3 (restricted first two ops), length-3 transform words, all constraint choices in the round trip"},
+    "assumptions": ["geometric convention pinned by the unambiguous flips/half-turn: ROTATE90CW (x,y)->(-y,x) on a y-down screen", "satisfaction is defined by the library's own translation to VPSC constraints, so the check is about commutation, not about sign conventions"],
+    "parts": [{"name": "transforms", "src": "c18_transforms.cpp", "quick": T(100, 20, [], 100), "thorough": T(1200, 20, [], 100)}],
+}
 NOT_APPLICABLE = {}
